@@ -204,6 +204,34 @@ void h_expiry(void) {
     V_WITNESS("h_expiry end");
 }
 
+/* C17 for the automata layer: every interface owns its session table. An operation on interface B's table
+ * followed by an operation on interface A's table (same or different key): A's operation never returns or
+ * modifies an entry of B's table, and behaves as it would without B. */
+void h_isolation(void) {
+    load_inputs();
+    V_ASSUME(in.now_s < (1ull << 62));
+    V_ASSUME(in.j < N && in.k < 4 && in.p < 3);
+    g_plat.now_s = in.now_s; g_plat.now_ms = in.now_ms;
+    session_table *TA = session_table_create(), *TB = session_table_create();
+    V_ASSUME(TA != 0 && TB != 0);
+    /* B's table: empty or holding the key; A's table: empty */
+    if (in.p == 0) (void)session_table_add(TB, in.mac, in.gen, in.seq);
+    else if (in.p == 1) { (void)session_table_add(TB, in.mac, in.gen, in.seq); (void)session_table_find(TB, in.mac, in.gen, in.seq); }
+    else (void)session_table_find(TB, in.mac, in.gen, in.seq);
+    session_table b_before = *TB;
+    session_entry *r = 0;
+    if (in.k == 0) r = session_table_find(TA, in.mac, in.gen, in.seq);
+    else if (in.k == 1) r = session_table_add(TA, in.mac, in.gen, (uint16_t)(in.seq + 1));
+    else if (in.k == 2) session_table_remove(TA, in.mac, in.gen);
+    else automata_tick(0, 0, TA, 0);
+    V_ASSERT(r == 0 || (r >= &TA->entries[0] && r <= &TA->entries[N - 1]), "C17: a lookup in one interface's session table never yields an entry of another interface's table");
+    if (in.k == 0) V_ASSERT(r == 0, "C17: a session known only on another interface is unknown on this one");
+    if (in.k == 1) V_ASSERT(r != 0 && TA->count == 1, "C17: adding a session on this interface creates it here although another interface knows the same mapper");
+    V_ASSERT(entry_same(&b_before.entries[in.j], &TB->entries[in.j]) && TB->count == b_before.count && TB->all_complete == b_before.all_complete,
+             "C17: operations on one interface's session table leave the other interface's table untouched");
+    V_WITNESS("h_isolation end");
+}
+
 #ifndef VERIF_CBMC
 int main(void) { HARNESS(); return 0; }
 #endif
